@@ -160,7 +160,9 @@ fn build(scn: &Scn) -> Built {
     let mut files = Vec::new();
     let mut mains = Vec::new();
     let mut clock: u64 = scn.t0 as u64;
-    let base = 1_600_000_000u32;
+    // (a third of the runs start where the low byte of the Unix time wraps between files: byte-swapped,
+    // the files would sort differently)
+    let base = if scn.t0 % 3 == 0 { 0x6500_10FDu32 } else { 1_600_000_000u32 };
     let widths = [BankWidth::B16, BankWidth::B32, BankWidth::B32A];
     let start = clock;
     for (k, f) in scn.files.iter().enumerate() {
